@@ -14,6 +14,8 @@ const BS = 64 * 1024
 //	Src 0        zeros
 //	Src 1..99    high-entropy stream number Src (the same stream everywhere)
 //	Src 100+p    low-entropy periodic stream with period p (p>=1)
+//	Src 1000+    random stream over a 2-, 3- or 4-letter alphabet (1000+3*i+(a-2)): repetitive, self-similar
+//	             content with many short matches everywhere - text-like, structured binaries
 //	Src -1-c     constant byte c (0..255): a full 64KiB block of an EVEN constant has weak hash 0 without
 //	             being all zeroes (both rolling sums are multiples of 65536)
 //
@@ -81,6 +83,22 @@ func (p Piece) Append(dst []byte) []byte {
 		}
 	case p.Src == 0:
 		dst = append(dst, make([]byte, p.Len)...)
+	case p.Src >= 1000:
+		a := byte(2 + (p.Src-1000)%3)
+		off, n := p.Off, p.Len
+		for n > 0 {
+			b := streamBlock(p.Src, off/streamBlk)
+			o := off % streamBlk
+			k := streamBlk - o
+			if k > n {
+				k = n
+			}
+			for _, x := range b[o : o+k] {
+				dst = append(dst, 'a'+x%a)
+			}
+			off += k
+			n -= k
+		}
 	case p.Src >= 100:
 		per := p.Src - 100
 		if per < 1 {
